@@ -439,12 +439,30 @@ def run(rep, facts):
         consts = set()
         seps = set()
         pushes = set()
+        def lit(a):
+            v = ir.const_value(a)
+            if isinstance(v, bytes):
+                return v
+            a = ir.peel(a)
+            c = facts.consts.get(a[1]) if a[0] == 'constdef' else None
+            if c and c.get("ptrs") and len(c["ptrs"]) == 1:
+                return bytes(c["ptrs"][0][1])       # a named `const PREFIX: &str`
+            return None
         for r in rows:
+            started = False     # has anything been put into the variable name yet?
             for (nm, args, n) in r.calls:
                 if nm.endswith("CompactString::const_new"):
-                    v = ir.const_value(args[0])
+                    v = lit(args[0])
                     if isinstance(v, bytes):
                         consts.add(v)
+                        started = True
+                if nm.endswith("CompactString::push_str") and len(args) > 1:
+                    v = lit(args[1])
+                    if not started and isinstance(v, bytes):
+                        consts.add(v)       # an empty string sized up front, then the prefix pushed first
+                    started = True
+                if nm.endswith("CompactString::push") or nm.endswith("::extend"):
+                    started = True
                 if nm.endswith("::split") and len(args) > 1:
                     v = ir.const_value(args[1])
                     seps.add(v)
